@@ -19,7 +19,7 @@ EXTENDS Integers, Sequences, TLC, Json
 CallerSkipFrameCount == 2
 ContextSkip == 2          \* contextCallerSkipFrameCount (go >= 1.12)
 
-Mechs == {"ev", "evk", "ctx", "ctxcount", "evskipframe", "global"}
+Mechs == {"ev", "evk", "ctx", "ctxcount", "evskipframe", "evskipchain", "global"}
 Entries == {"Trace", "Debug", "Info", "Warn", "Error", "WithLevel", "Err", "Log", "Panic",
             "Print", "Printf", "Println", "Write", "log.Info", "log.Error", "log.Log", "log.WithLevel", "log.Err", "log.Print", "log.Printf"}
 Fins == {"Msg", "Msgf", "MsgFunc", "Send"}
@@ -40,12 +40,14 @@ Skip(mech, entry, k) ==
     [] mech = "ctx" -> CallerSkipFrameCount + ContextSkip + selfskip                 \* Context.Caller()
     [] mech = "ctxcount" -> (2 + k) + ContextSkip + selfskip                         \* CallerWithSkipFrameCount(2+k)
     [] mech = "evskipframe" -> CallerSkipFrameCount + ContextSkip + selfskip + k     \* Context.Caller() + Event.CallerSkipFrame(k)
+    \* k layered helpers, each adding CallerSkipFrame(1) to the event it passes on: the contributions add up
+    [] mech = "evskipchain" -> CallerSkipFrameCount + ContextSkip + selfskip + k
     [] mech = "global" -> (2 + k) + ContextSkip + selfskip                           \* global CallerSkipFrameCount = 2+k
 Wanted(mech, k) == IF mech \in {"ev", "ctx"} THEN 0 ELSE k
 Stack(mech, entry, depth) == Internal(mech, entry) \o [i \in 1..(depth + 1) |-> "u" \o ToString(i - 1)]
 Selected(mech, entry, k, depth) == Stack(mech, entry, depth)[Skip(mech, entry, k) + 1]
 \* event-level mechanisms need an *Event: not for the self-finishing entries
-Valid(mech, entry) == ~(mech \in {"ev", "evk", "evskipframe"} /\ SelfFinishing(entry))
+Valid(mech, entry) == ~(mech \in {"ev", "evk", "evskipframe", "evskipchain"} /\ SelfFinishing(entry))
 
 VARIABLES done
 Init == done = FALSE
